@@ -14,6 +14,16 @@
   are plain comments, not doc comments), so `<file>:<line>` of a build error lies between that line and the next
   `theorem` line.
 
+  `==` (property C20; model SLV/Model/Eq.lean), section "equality" at the end: `gen_eq_Simplex_eq`,
+  `gen_eq_OpinionBase_eq` (derived `PartialEq` of src/mul.rs = `Cmp.simplexEq` / `Cmp.opinionEq`), `gen_eq_MArr1_eq`,
+  `gen_eq_MArr2_eq`, `gen_eq_MArr3_eq` (derived, src/multi_array/non_labeled.rs), `gen_eq_MArrD1_eq`, `gen_eq_MArrD2_eq`,
+  `gen_eq_MArrD3_eq` (hand-written `impl cmp::PartialEq`, body `self.inner == other.inner`, src/multi_array/labeled.rs)
+  = the cell-wise `Cmp.tabEq` of the row-major flattened table.  The marker definitions `eq_<Type>` exist only under
+  their convention guard (derived: the `#[derive(..)]` line still contains `PartialEq`, no hand-written impl besides it,
+  every field has a convention; hand-written: the body is the `&&` of `self.f == other.f` over all non-marker fields, no
+  `ne`); a violated guard makes the marker -- and the markers of the types nesting it: MArr2/MArr3, MArrD2/MArrD3,
+  OpinionBase -- a hole, i.e. the theorem fails with an unknown identifier.
+
   Hand-written once; never regenerated.
 -/
 import SLV.Gen.Mul
@@ -415,5 +425,30 @@ theorem gen_merge_cond2_labeled_eq :
   generalize SLV.mbr ax1 yx1 = o1
   generalize SLV.mbr ax2 yx2 = o2
   cases o1 <;> cases o2 <;> rfl
+
+/-! ### equality: derived `PartialEq` of Simplex / OpinionBase / MArr1-3, hand-written `PartialEq` of MArrD1-3 -/
+
+/- `#[derive(PartialEq)] struct Simplex { belief, uncertainty }` -/
+theorem gen_eq_Simplex_eq : @SLV.Gen.Mul.eq_Simplex = @Cmp.simplexEq := rfl
+/- `#[derive(PartialEq)] struct OpinionBase { simplex, base_rate }` at `Opinion<T, V> = OpinionBase<Simplex<T, V>, T>` -/
+theorem gen_eq_OpinionBase_eq : @SLV.Gen.Mul.eq_OpinionBase = @Cmp.opinionEq := rfl
+/- `#[derive(PartialEq)] struct MArr1(Vec<V>)`, `MArr2(Vec<MArr1>)`, `MArr3(Vec<MArr2>)`: cell-wise on the flattened table -/
+theorem gen_eq_MArr1_eq :
+    @SLV.Gen.Mul.eq_MArr1 = fun (β : Type) (_ : CmpScalar β) (n : Nat) (x y : Tab β n) => Cmp.tabEq x y := rfl
+theorem gen_eq_MArr2_eq :
+    @SLV.Gen.Mul.eq_MArr2 =
+      fun (β : Type) (_ : CmpScalar β) (n0 n1 : Nat) (x y : Tab β (n0 * n1)) => Cmp.tabEq x y := rfl
+theorem gen_eq_MArr3_eq :
+    @SLV.Gen.Mul.eq_MArr3 =
+      fun (β : Type) (_ : CmpScalar β) (n0 n1 n2 : Nat) (x y : Tab β (n0 * n1 * n2)) => Cmp.tabEq x y := rfl
+/- `impl cmp::PartialEq for MArrD1 / MArrD2 / MArrD3 { fn eq(&self, other) -> bool { self.inner == other.inner } }` -/
+theorem gen_eq_MArrD1_eq :
+    @SLV.Gen.Mul.eq_MArrD1 = fun (β : Type) (_ : CmpScalar β) (n : Nat) (x y : Tab β n) => Cmp.tabEq x y := rfl
+theorem gen_eq_MArrD2_eq :
+    @SLV.Gen.Mul.eq_MArrD2 =
+      fun (β : Type) (_ : CmpScalar β) (n0 n1 : Nat) (x y : Tab β (n0 * n1)) => Cmp.tabEq x y := rfl
+theorem gen_eq_MArrD3_eq :
+    @SLV.Gen.Mul.eq_MArrD3 =
+      fun (β : Type) (_ : CmpScalar β) (n0 n1 n2 : Nat) (x y : Tab β (n0 * n1 * n2)) => Cmp.tabEq x y := rfl
 
 end SLV.Gen.Tie
